@@ -133,6 +133,32 @@ async def co():
     async def inner(): pass
 lam = lambda: 0
 ''',
+    # what the bundled extensions themselves push and pop: zope interfaces created by a call (at module level, in a class, by a
+    # subclass of InterfaceClass), implementers, attrs/deprecate-style declarations
+    'z': '''
+from zope.interface import Interface, Attribute, implementer, interface
+from zope.interface.interface import InterfaceClass
+import attr
+class MyInterfaceClass(InterfaceClass):
+    pass
+IFoo = MyInterfaceClass("IFoo")
+IBar = interface.InterfaceClass("IBar", (Interface,), {})
+IBaz = InterfaceClass("IBaz")
+class IReal(Interface):
+    a = Attribute("doc of a")
+    def m(x): "doc"
+class K:
+    IInner = MyInterfaceClass("IInner")
+    def after_inner(self): pass
+@implementer(IFoo, IReal)
+class Impl:
+    def m(self, x): pass
+@attr.s(auto_attribs=True)
+class At:
+    x: int = attr.ib(default=1)
+    y = attr.ib(type=str)
+def after(): pass
+''',
 }
 
 
